@@ -512,6 +512,14 @@ func monitorArcs(line string, rect image.Rectangle, cs []Call) (fails []Failure)
 			if px+float32(sx)*c.F[3] == px && py+float32(sy)*c.F[4] == py {
 				continue
 			}
+			// … and both end points return to viewBox space through float32 (x/scale − bias): far from the
+			// viewBox origin that resolution is coarser still, and the two may coincide there
+			sx32, sy32 := float32(W)/(vb.MaxX-vb.MinX), float32(H)/(vb.MaxY-vb.MinY)
+			ux := func(p float32) float32 { return p/sx32 - (-vb.MinX) }
+			uy := func(p float32) float32 { return p/sy32 - (-vb.MinY) }
+			if ux(px) == ux(px+sx32*c.F[3]) && uy(py) == uy(py+sy32*c.F[4]) {
+				continue
+			}
 		}
 		if len(delta) == 0 || len(delta) > 4 {
 			return bad("C06.at-most-four-cubics", fmt.Sprintf("%d segments", len(delta)))
